@@ -24,7 +24,7 @@ impl<K, V> HashMap<K, V> {
             match r {
                 Some(v) => old(self)@.contains_key(*k) && *v == old(self)@[*k]
                     && final(self)@ == old(self)@.insert(*k, *final(v)),
-                None => !old(self)@.contains_key(*k) && final(self)@ == old(self)@,
+                None => !old(self)@.contains_key(*k) && *final(self) == *old(self),
             },
     { unimplemented!() }
 
